@@ -100,6 +100,9 @@ def int_shapes(op, a, b, tier, unary):
         yield "bid%d" % d, (o, "bid", d), LOADAB + " mov one, i64:304(buf)\n %s r, i64:%d(buf, one, 8), b\n" % (o, d) + STORER
     if op in S_OPS:
         yield "s32", (o, "s32"), " %s r, i32:0(buf), u32:8(buf)\n" % o + STORER
+        # 64-bit register (arbitrary upper half) against a 32-bit memory operand: the load is folded into the insn
+        yield "rs32", (o, "rs32"), LOADAB + " %s r, a, i32:8(buf)\n" % o + STORER
+        yield "ru32", (o, "ru32"), LOADAB + " %s r, a, u32:8(buf)\n" % o + STORER
     if a == b:
         yield "aa", (o, "aa"), LOADAB + " %s r, a, a\n" % o + STORER
     if tier == "thorough":
@@ -117,6 +120,17 @@ def build_plan(rows, tier):
     host_req = []   # (insn, hex1, hex2, slot index into P.calls expectations)
     for row in rows:
         k = row["k"]
+        if k == "uu":       # chains of two extension insns
+            if not row["r"]["ok"]:
+                continue
+            o1, o2 = row["o1"], row["o2"]
+            a = w64_to_int(row["a"]); v = w64_to_int(row["r"]["v"])
+            for shape, body in (("rr", LOADAB + " %s b, a\n %s r, b\n" % (o1, o2) + STORER),
+                                ("m", " %s b, i64:0(buf)\n %s r, b\n" % (o1, o2) + STORER),
+                                ("d1", LOADAB + " %s a, a\n %s a, a\n mov i64:16(buf), a\n" % (o1, o2)),
+                                ("dm", LOADAB + " %s b, a\n %s i64:16(buf), b\n" % (o1, o2))):
+                P.call(P.func(("uu", o1, o2, shape), body), mkbuf(a, 0), {"r": v, "mask": (1 << 64) - 1}, row, shape)
+            continue
         if k in ("u", "b"):
             op = row["op"]
             if not row["r"]["ok"]:
